@@ -180,7 +180,7 @@ Proof.
       cbn [obind] in Ha. destruct (m =? 65535); [inversion Ha; subst; assumption|].
       destruct ((maxrects >? 0) && negb (exempt_from_coalescing pref) && (m >? maxrects)) eqn:E;
         inversion Ha; subst; [|assumption].
-      inversion Hin; subst. constructor; [apply bbox_in_screen; assumption|constructor]. }
+      inversion Hin; subst. cbn [bbox_region]. constructor; [apply bbox_in_screen; assumption|constructor]. }
   split; [exact R'|].
   pose proof (emit_region_inside pref lastrect cmw cmh region' Hcw Hch (in_screen_nondeg W H region' R')) as F2.
   clear Ha Hin. induction F2 as [|r e lr le Hre F2 IH]; [constructor|].
@@ -188,6 +188,67 @@ Proof.
   destruct e as [l|r'|]; [|subst; assumption|contradiction].
   destruct Hre as [Hl _]. eapply Forall_impl; [|exact Hl].
   destruct r as [[[X Y] Wd] Ht]. intros [[[x y] w] h]. cbn in Hr. cbn. lia.
+Qed.
+
+(* the same for the count stage the model runs (announce_sel: with or without the repairs) *)
+Lemma bbox_region_in_screen W H l : Forall (rect_in_screen W H) l -> Forall (rect_in_screen W H) (bbox_region l).
+Proof.
+  destruct l as [|r t]; intros Hl; cbn [bbox_region]; [constructor|]. inversion Hl; subst.
+  constructor; [apply bbox_in_screen; assumption|constructor].
+Qed.
+
+Lemma finish_in_screen W H pref maxrects npseudo region1 n1 lrm1 nc keep n region' lm keep' :
+  Forall (rect_in_screen W H) region1 ->
+  finish_count pref maxrects npseudo region1 n1 lrm1 nc keep = Some (n, region', lm, keep') ->
+  Forall (rect_in_screen W H) region'.
+Proof.
+  intros Hr Hf. unfold finish_count in Hf. destruct lrm1; [inversion Hf; subst; exact Hr|].
+  destruct ((maxrects >? 0) && negb (exempt_from_coalescing pref) && (n1 >? maxrects)); inversion Hf; subst;
+    [apply bbox_region_in_screen|]; exact Hr.
+Qed.
+
+Lemma emit_known_in_screen pref lastrect cmw cmh W H region' : 1 <= cmw -> 1 <= cmh ->
+  Forall (rect_in_screen W H) region' ->
+  Forall (fun e => match e with
+                   | EmKnown l => Forall (rect_in_screen W H) l
+                   | EmData r => rect_in_screen W H r
+                   | EmTrap => False end)
+         (emit_region pref lastrect cmw cmh region').
+Proof.
+  intros Hcw Hch R'.
+  pose proof (emit_region_inside pref lastrect cmw cmh region' Hcw Hch (in_screen_nondeg W H region' R')) as F2.
+  induction F2 as [|r e lr le Hre F2 IH]; [constructor|].
+  inversion R' as [|? ? Hr Hrs]; subst. constructor; [|apply IH; assumption].
+  destruct e as [l|r'|]; [|subst; assumption|contradiction].
+  destruct Hre as [Hl _]. eapply Forall_impl; [|exact Hl].
+  destruct r as [[[X Y] Wd] Ht]. intros [[[x y] w] h]. cbn in Hr. cbn. lia.
+Qed.
+
+Theorem emitted_inside_screen_sel : forall g pref lastrect cmw cmh maxrects region copyl npseudo n region' lm keep W H,
+  1 <= cmw -> 1 <= cmh -> Forall (rect_in_screen W H) region -> Forall (rect_in_screen W H) copyl ->
+  announce_sel g pref lastrect cmw cmh maxrects region copyl npseudo = Some (n, region', lm, keep) ->
+  Forall (rect_in_screen W H) region' /\
+  Forall (fun e => match e with
+                   | EmKnown l => Forall (rect_in_screen W H) l
+                   | EmData r => rect_in_screen W H r
+                   | EmTrap => False end)
+         (emit_region pref lastrect cmw cmh region').
+Proof.
+  intros g pref lastrect cmw cmh maxrects region copyl npseudo n region' lm keep W H Hcw Hch Hr Hc Ha.
+  assert (R' : Forall (rect_in_screen W H) region').
+  { unfold announce_sel in Ha. destruct (g_wrap_coalesce g).
+    - unfold announce_fixed in Ha.
+      destruct (count_stage pref lastrect cmw cmh region) as [[n0 lrm0]|]; [|discriminate]. cbn [obind] in Ha.
+      destruct (lrm0 || (Z.of_nat (length copyl) + n0 + 6 <? 65535)); [exact (finish_in_screen W H _ _ _ _ _ _ _ _ _ _ _ _ Hr Ha)|].
+      destruct (count_stage pref lastrect cmw cmh (bbox_region region)) as [[n1 lrm1]|]; [|discriminate]. cbn [obind] in Ha.
+      destruct (lrm1 || negb (g_wrap_copy g) || (Z.of_nat (length copyl) + n1 + 6 <? 65535)).
+      + exact (finish_in_screen W H _ _ _ _ _ _ _ _ _ _ _ _ (bbox_region_in_screen W H region Hr) Ha).
+      + destruct (count_stage pref lastrect cmw cmh (bbox_region (bbox_region region ++ copyl))) as [[n2 lrm2]|]; [|discriminate].
+        cbn [obind] in Ha. refine (finish_in_screen W H _ _ _ _ _ _ _ _ _ _ _ _ _ Ha).
+        apply bbox_region_in_screen. apply Forall_app. split; [apply bbox_region_in_screen|]; assumption.
+    - destruct (announce pref lastrect cmw cmh maxrects region (Z.of_nat (length copyl)) npseudo) as [[[n' r'] lm']|] eqn:E; [|discriminate].
+      inversion Ha; subst. exact (proj1 (emitted_inside_screen _ _ _ _ _ _ _ _ _ _ _ W H Hcw Hch Hr E)). }
+  split; [exact R'|]. apply emit_known_in_screen; assumption.
 Qed.
 
 (* ---- requestedRegion: the union of the clipped requests of any history is well formed and lies
